@@ -172,7 +172,8 @@ class CapOr(GlobalStopCondition):
 
     def __call__(self, tree) -> bool:
         real = bool(self.inner(tree))
-        capped = tree.metaepoch_count >= self.cap
+        # (the cap also ends runs whose tree outgrows 40 demes: mechanisms without a LevelLimit can grow geometrically)
+        capped = tree.metaepoch_count >= self.cap or sum(len(lv) for lv in tree.levels) > 40
         verdict = real or capped
         kind, did, lvl, fn = find_asker(2)
         if kind == "tree":
@@ -241,6 +242,18 @@ class ScriptedLSC(LocalStopCondition):
         return bool(v)
 
 
+def _brute_best(deme):
+    """best of a deme's whole history by brute force - observers must not call the accessors under test
+    (a memoised accessor that is queried at every round never shows its staleness)"""
+    b = None
+    for m in deme._history:
+        for g in m:
+            for ind in g:
+                if b is None or ind.problem.worse_than(b.fitness, ind.fitness):
+                    b = ind
+    return None if b is None else (np.array(b.genome, dtype=float, copy=True), float(b.fitness))
+
+
 def pop_snapshot(deme) -> list:
     return [(np.array(ind.genome, dtype=float, copy=True), float(ind.fitness), id(ind)) for ind in deme.current_population]
 
@@ -258,7 +271,7 @@ class ObservedMechanism:
         before = {
             "census": census(tree),
             "pops": {d.id: pop_snapshot(d) for _, d in tree.all_demes},
-            "best": {d.id: (None if d.best_individual is None else (np.array(d.best_individual.genome, copy=True), float(d.best_individual.fitness))) for _, d in tree.all_demes},
+            "best": {d.id: _brute_best(d) for _, d in tree.all_demes},
             "finished_now": {d.id for d in tree.levels[-2] if len(tree.levels) >= 2 and (not d.is_active) and d.started_at + len(d._history) == tree.metaepoch_count} if len(tree.levels) >= 2 else set(),
         }
         result = self.inner.get_seeds(tree)
